@@ -3,12 +3,12 @@ module verifharness
 go 1.26
 
 require (
+	github.com/cespare/xxhash v1.1.0
 	github.com/gorilla/websocket v1.5.3
 	github.com/named-data/ndnd v0.0.0
 )
 
 require (
-	github.com/cespare/xxhash v1.1.0 // indirect
 	github.com/davecgh/go-spew v1.1.1 // indirect
 	github.com/pkg/errors v0.9.1 // indirect
 	github.com/pmezard/go-difflib v1.0.0 // indirect
